@@ -68,7 +68,8 @@ theorem sq_form_iff (d t v : Rat) (ht : 0 ≤ t) (hv : 0 ≤ v) :
 
 /-- the variance the test is applied to is never negative -/
 theorem popvar_nonneg (l : List Rat) : 0 ≤ popvar l := by
-  unfold popvar mean
+  show 0 ≤ mean (l.map (fun v => (v - mean l) * (v - mean l)))
+  unfold mean
   apply div_nonneg
   · apply List.sum_nonneg
     intro v hv
